@@ -370,20 +370,25 @@ func executeRace(t *testing.T, prop string, seed uint64, p *RacePlan) *core.Resu
 				time.Sleep(rest)
 			}
 			synctest.Wait()
+			// Every attempt has returned by now. Whatever Dial still has alive is
+			// left behind -- looked at *before* the caller's context is cancelled
+			// (unless the plan itself ended it): a goroutine that only goes away
+			// when the caller cancels counts as left behind.
+			if runtime.NumGoroutine() != g0 { // cheap pre-check; the stack walk is authoritative
+				rl.leaked, rl.other = leakedHere()
+				leakWalks.Add(1)
+			}
 			if stop != nil {
 				stop()
 			}
 			cancel()
-			if panicked {
+			// should the end of the caller's context set anything in motion again
+			// (it must not, after a correct Dial), let that finish too
+			time.Sleep(time.Duration(n+1) * (time.Duration(maxD) + p.timeout() + p.delay() + time.Second))
+			synctest.Wait()
+			if panicked || len(rl.leaked) > 0 || len(rl.other) > 0 {
 				break
 			}
-		}
-		// goroutines left behind by any repetition are still there now
-		synctest.Wait()
-		last := logs[len(logs)-1]
-		if runtime.NumGoroutine() != g0 { // cheap pre-check; the stack walk is authoritative
-			last.leaked, last.other = leakedHere()
-			leakWalks.Add(1)
 		}
 		res.SimNs = int64(time.Since(bubble0))
 	})
@@ -696,7 +701,7 @@ func judgeRace(res *core.Result, prop string, p *RacePlan, targets []string, rl 
 		if cn == rl.retConn {
 			continue
 		}
-		at, n := cn.closedAt()
+		_, n := cn.closedAt()
 		if n == 0 {
 			fail("loser-open", "established connection neither returned nor closed", "target %d established at %v", cn.attempt, time.Duration(callOf(calls, cn).endT))
 			continue
@@ -705,7 +710,6 @@ func judgeRace(res *core.Result, prop string, p *RacePlan, targets []string, rl 
 		if cr := callOf(calls, cn); cr != nil && cr.endT > tr {
 			res.Probe("late_success_closed")
 		}
-		_ = at
 	}
 
 	// ---- attempts begun after the decision ------------------------------------
